@@ -94,6 +94,10 @@ pub fn def(ctx: &Ctx) -> PropDef {
         let cases = if ty == Ty::Jitter { t.pick(1500, 60_000) } else { t.pick(2500, 100_000) };
         subs.push(PSub::boxed(format!("hist/{}", ty.name()), cases, move || strategy(ty, max_ops), check_hist));
     }
+    if ctx.tier == crate::engine::Tier::Thorough {
+        subs.push(crate::props::fuzzsub::FuzzSub::boxed("fz_hist", "C05", 400000, false));
+        subs.push(crate::props::fuzzsub::FuzzSub::boxed("fz_hist", "C05", 400000, true));
+    }
     PropDef {
         id: "C05",
         rule: "cases = (type in 19 deterministic generators + scripted-timer JitterRng) x constructor (from_seed incl. zero seeds, seed_from_u64) x pre-advance (every buffer index) x history of next_u32/next_u64/fill_bytes(n) (n in {0; 1-8; 9-64; around one and two blocks; <=5000}). Generator A executes the history; twin B, built the same way, is only asked for native-width words; the projection model written from the statement predicts every value A returns from B's word stream, and at the end A's next 4 native words must be the next unread words. Non-trivial = >=2 different call kinds and at least one of: zero length, tail 1..7, a call straddling a block refill, a pending half followed by another call; distinct by hash of (spec, pre, ops).".into(),
